@@ -209,6 +209,35 @@ def lift_lambda(bound, j, body):
     return _lift_keys[key](*fv)
 
 
+_inv_keys: Dict[str, Any] = {}
+
+
+def set_builder_mem(bound, x, cond, bt):
+    """Membership array of { f(x) | c(x) }  (x a z3 constant, cond = c(x) incl. the source membership, bt = f(x)),
+    with a choice function instead of an existential:
+        y in result := c(inv(y)) and y == f(inv(y));   axiom: forall x. c(x) => c(inv(f(x))) and f(inv(f(x))) == f(x)
+    Structurally identical comprehensions (program or specification side) share inv, hence yield the same term."""
+    y = z3.Const("y!sb", bt.sort())
+    if z3.eq(bt, x):
+        return z3.Lambda([y], z3.substitute(cond, (x, y)))
+    fv = [v for v in bound if not z3.eq(v, x) and (_occurs(v, cond) or _occurs(v, bt))]
+    canon = [z3.Const(f"lv!{i}", v.sort()) for i, v in enumerate(fv)]
+    xa = z3.Const("x!inv", x.sort())
+    sub = list(zip(fv, canon)) + [(x, xa)]
+    c_c, b_c = z3.substitute(cond, *sub), z3.substitute(bt, *sub)
+    key = ",".join(str(c.sort()) for c in canon) + "|" + c_c.sexpr() + "|" + b_c.sexpr()
+    if key not in _inv_keys:
+        name = f"inv!{len(_inv_keys)}"
+        inv = z3.Function(name, *[c.sort() for c in canon], bt.sort(), x.sort())
+        at = lambda e_, t_: z3.substitute(e_, (xa, t_))
+        w = inv(*canon, b_c)
+        LIFTED[name] = z3.ForAll(canon + [xa], z3.Implies(c_c, z3.And(at(c_c, w), at(b_c, w) == b_c)), patterns=[b_c])
+        _inv_keys[key] = inv
+    inv = _inv_keys[key]
+    w = inv(*fv, y)
+    return z3.Lambda([y], z3.And(z3.substitute(cond, (x, w)), y == z3.substitute(bt, (x, w))))
+
+
 def _occurs(v, e):
     todo, seen = [e], set()
     while todo:
